@@ -2,6 +2,6 @@
 EXTENDS Api
 Api_Names == { <<"a">>, <<"b">> }
 \* a name with '/' : fine for output and walk, invalid for the validating operations
-Api_NamesSlash == { <<"a">>, <<"a", "SL", "b">> }
+Api_NamesSlash == { <<"a">>, <<"a", "SL", "b">>, <<"b", "SL">> }
 Api_Names3 == { <<"a">>, <<"b">>, <<"a", "SP", "b">> }
 =============================================================================
